@@ -181,7 +181,7 @@ func checkC01(c *Ctx, r *Report) {
 									yieldsNil = true
 								}
 							}
-							if !yieldsNil {
+							if !yieldsNil || nilness(ret.Results[len(ret.Results)-1], b) == isNonNil {
 								continue
 							}
 							guardVerdict(m, r, "C01.R2", "uploadFlush closure reports success only after "+up+" succeeded", cfn, ret,
